@@ -595,6 +595,8 @@ func C04(tier rt.Tier) int {
 		runs = []roundCfg{
 			{name: "prefixfree-2rounds", paths: pfPaths[:4], vals: []string{"x"}, rounds: 2, txnOps: 2, maxTxns: 2, depth: 8},
 			{name: "nested-2rounds", paths: nestedRound[:4], vals: []string{"x"}, rounds: 2, txnOps: 2, maxTxns: 1, depth: 7},
+			// txn2 of a round undoes and redoes what txn1 of the same round wrote, plus one more change
+			{name: "restore-within-round", paths: pfPaths[:2], vals: []string{"x", "y"}, rounds: 2, txnOps: 3, maxTxns: 2, depth: 9},
 		}
 	} else {
 		per = 8 * time.Minute
@@ -623,6 +625,7 @@ func C05(tier rt.Tier) int {
 		runs = []roundCfg{
 			{name: "prefixfree-3rounds", paths: pfPaths[:3], vals: []string{"x"}, rounds: 3, txnOps: 1, maxTxns: 3, depth: 9, c05: true},
 			{name: "nested-2rounds", paths: nestedRound[:4], vals: []string{"x"}, rounds: 2, txnOps: 2, maxTxns: 2, depth: 8, c05: true},
+			{name: "restore-within-round", paths: pfPaths[:2], vals: []string{"x", "y"}, rounds: 2, txnOps: 3, maxTxns: 2, depth: 9, c05: true},
 		}
 	} else {
 		per = 8 * time.Minute
